@@ -87,6 +87,42 @@ def gen_template(rng, features: Dict[str, int]):
             s.hidden = False
         tmpl.add_ent(be)
         features['brush_ent'] = features.get('brush_ent', 0) + 1
+    # entities whose keyvalues have a geometric / referential FGD type (fixed up by Instance.fixup_key)
+    def v3(lo=-256, hi=256) -> str:
+        return ' '.join(str(rng.choice((rng.randrange(lo, hi), round(rng.uniform(lo, hi), 3)))) for _ in range(3))
+    face_ids = [f.id for s in tmpl.brushes for f in s.sides] + [f.id for e in tmpl.entities for s in e.solids for f in s.sides]
+    for _ in range(rng.choice((0, 1, 2, 3))):
+        kind = rng.choice(('beam', 'hinge', 'overlay', 'door', 'spot', 'sun', 'nodes', 'follow', 'cubemap'))
+        keys = {'origin': v3()}
+        if rng.random() < 0.7:
+            keys['angles'] = f'{rng.randrange(-70, 70)} {rng.randrange(0, 360)} {rng.choice((0, 0, 45, 180))}'
+        if kind == 'beam':
+            keys.update(classname='env_beam', targetpoint=v3(), lightningstart=rng.choice(names))
+        elif kind == 'hinge':
+            keys.update(classname='phys_hinge', hingeaxis=v3(), attach1=rng.choice(names))
+        elif kind == 'overlay':
+            ids = rng.sample(face_ids, min(len(face_ids), rng.randint(0, 3))) + ([987654] if rng.random() < 0.3 else [])
+            keys.update(classname='info_overlay', basisorigin=v3(), basisu=v3(-1, 2), basisv=v3(-1, 2), basisnormal=v3(-1, 2),
+                        uv0=v3(-64, 64), sides=' '.join(map(str, ids)), material='overlays/x')
+        elif kind == 'cubemap':
+            ids = rng.sample(face_ids, min(len(face_ids), rng.randint(0, 2)))
+            keys.update(classname='env_cubemap', sides=' '.join(map(str, ids)))
+        elif kind == 'door':
+            keys.update(classname='prop_door_rotating', axis=v3() + ', ' + v3())
+        elif kind in ('spot', 'sun'):
+            keys.update(classname='light_spot' if kind == 'spot' else 'light_environment', pitch=str(rng.choice((-90, -45, -30.5, 0, 20, 75))))
+            keys.setdefault('angles', '0 0 0')
+        elif kind == 'nodes':
+            n1 = Entity(tmpl, keys={'classname': 'info_node', 'origin': v3(), 'nodeid': str(rng.randrange(1, 9))})
+            n2 = Entity(tmpl, keys={'classname': 'info_node', 'origin': v3(), 'nodeid': str(rng.randrange(1, 9))})
+            tmpl.add_ent(n1)
+            tmpl.add_ent(n2)
+            a, b = n1['nodeid'], n2['nodeid']  # the map may have handed out other IDs than the ones asked for
+            keys = {'classname': 'info_node_link', 'origin': v3(), 'startnode': a, 'endnode': rng.choice((b, a, '99'))}
+        elif kind == 'follow':
+            keys.update(classname='ai_goal_follow', actor=rng.choice(('npc_citizen', 'NPC_Citizen', 'Door_A', '!player', 'relay')), goal='tgt')
+        tmpl.add_ent(Entity(tmpl, keys=keys))
+        features['typed_' + kind] = features.get('typed_' + kind, 0) + 1
     if rng.random() < 0.3:
         ne = Entity(tmpl, keys={'classname': 'func_instance', 'targetname': 'nested', 'file': 'other.vmf', 'origin': '1 2 3', 'angles': '0 0 0'})
         ne.fixup['inner'] = rng.choice(('relay', '@glob', '123', 'Door_A'))
@@ -161,8 +197,19 @@ class Collapser:
             inst_ent.remove()
             before_brushes = list(target.brushes)
             before_ents = list(target.entities)
+            # visgroup handling: stripped (default), kept, or gathered under a holder group.  With visgroups kept the
+            # library also copies hidden entities, which the statement does not speak about, so those modes are only
+            # used for templates in which everything is visible.
+            vis_mode: Any = False
+            all_visible = len(snap_brushes) == len(tmpl.brushes) and len(snap_ents) == len(tmpl.entities)
+            if all_visible and rng.random() < 0.35:
+                from srctools.vmf import VisGroup
+                vis_mode = True if rng.random() < 0.5 else VisGroup(target, 'holder')
+                if vis_mode is not True:
+                    target.vis_tree.append(vis_mode)
+                self.run.count('collapses_keeping_visgroups')
             try:
-                instancing.collapse_one(target, inst, ifile, engine_cache=cache)
+                instancing.collapse_one(target, inst, ifile, engine_cache=cache, visgroup=vis_mode)
             except Exception as exc:
                 self.fail(f'collapse_one raised {type(exc).__name__}: {exc}', 'collapse-raises', traceback.format_exc()[-1200:])
                 return nontrivial, placements
@@ -203,7 +250,7 @@ class Collapser:
 
     # ---- snapshots of template objects (plain tuples, so later mutation cannot affect them)
     def snap_side(self, f) -> dict:
-        return {'planes': [tuple(p) for p in f.planes], 'u': (f.uaxis.x, f.uaxis.y, f.uaxis.z, f.uaxis.offset, f.uaxis.scale),
+        return {'id': f.id, 'planes': [tuple(p) for p in f.planes], 'u': (f.uaxis.x, f.uaxis.y, f.uaxis.z, f.uaxis.offset, f.uaxis.scale),
                 'v': (f.vaxis.x, f.vaxis.y, f.vaxis.z, f.vaxis.offset, f.vaxis.scale), 'mat': f.mat,
                 'disp_pos': tuple(f.disp_pos) if f.is_disp else None, 'power': f.disp_power,
                 'verts': [(tuple(f[x, y].normal), tuple(f[x, y].offset), f[x, y].distance, f[x, y].alpha) for y in range(f.disp_size) for x in range(f.disp_size)] if f.is_disp else None,
@@ -273,6 +320,16 @@ class Collapser:
             self.check_solid(snap, new, R, pos, 'world brush')
             if self.bad:
                 return
+        # old face id -> new face id, from the positional pairing of template and collapsed brushes
+        face_map: Dict[int, int] = {}
+        for snap, new in zip(snap_brushes, new_brushes):
+            for fs, f in zip(snap, new.sides):
+                face_map[fs['id']] = f.id
+        for snap, new in zip(snap_ents, new_ents):
+            for ss, ns in zip(snap['solids'], new.solids):
+                for fs, f in zip(ss, ns.sides):
+                    face_map[fs['id']] = f.id
+        node_map: Dict[int, int] = {}
         for snap, new in zip(snap_ents, new_ents):
             keys = snap['keys']
             cls = keys.get('classname', '')
@@ -302,6 +359,15 @@ class Collapser:
                     self.run.count('origins_checked')
                 elif f == 'angles':
                     a0 = tuple(float(x) for x in old.split())
+                    # the special "pitch" / "yaw" keys override the components of angles before the rotation
+                    folded_keys = {kk.casefold(): vv for kk, vv in keys.items()}
+                    if 'pitch' in folded_keys:
+                        pk = float(folded_keys['pitch'])
+                        if edef is not None and 'pitch' in edef.kv and edef.kv['pitch'].type.name == 'ANGLE_NEG_PITCH':
+                            pk = -pk
+                        a0 = (pk, a0[1], a0[2])
+                    if 'yaw' in folded_keys:
+                        a0 = (a0[0], float(folded_keys['yaw']), a0[2])
                     want_m = mmul(model_matrix(*a0), R)
                     got_a = tuple(float(x) for x in new_val.split())
                     got_m = model_matrix(*got_a)
@@ -324,6 +390,70 @@ class Collapser:
                             self.fail(f'{label}: name key {k}={new_val!r}, expected {want!r} (template {old!r}, style {style})', 'name-fixup')
                             return
                         self.run.count('names_checked')
+                    elif t.name in ('VEC_LINE', 'VEC_ORIGIN') or (t.name == 'VEC' and f == 'basisorigin'):
+                        want = rot_point(tuple(float(x) for x in sub.split()), R, pos)
+                        got = tuple(float(x) for x in new_val.split())
+                        if len(got) != 3 or not close(got, want, 5e-6):
+                            self.fail(f'{label}: position key {k}={new_val!r} is not R*p+o = {want}', 'typed-key-position', {'template': old, 'type': t.name})
+                            return
+                        self.run.count('typed_positions_checked')
+                    elif t.name == 'EXT_VEC_DIRECTION':
+                        want = vmul(tuple(float(x) for x in sub.split()), R)
+                        got = tuple(float(x) for x in new_val.split())
+                        if len(got) != 3 or not close(got, want, 5e-6):
+                            self.fail(f'{label}: direction key {k}={new_val!r} is not R*d = {want}', 'typed-key-direction', {'template': old})
+                            return
+                        self.run.count('typed_directions_checked')
+                    elif t.name == 'EXT_VEC_LOCAL':
+                        if tuple(float(x) for x in new_val.split()) != tuple(float(x) for x in sub.split()):
+                            self.fail(f'{label}: local-space key {k} changed from {old!r} to {new_val!r}', 'typed-key-local')
+                            return
+                    elif t.name == 'VEC_AXIS':
+                        try:
+                            g1, g2 = [tuple(float(x) for x in part.split()) for part in new_val.split(',')]
+                        except ValueError:
+                            g1 = g2 = ()
+                        w1, w2 = [rot_point(tuple(float(x) for x in part.split()), R, pos) for part in sub.split(',')]
+                        if len(g1) != 3 or len(g2) != 3 or not close(g1, w1, 5e-6) or not close(g2, w2, 5e-6):
+                            self.fail(f'{label}: axis key {k}={new_val!r} is not the two template points moved with the instance ({w1}, {w2})', 'typed-key-axis', {'template': old})
+                            return
+                        self.run.count('typed_axes_checked')
+                    elif t.name == 'SIDE_LIST':
+                        want_ids = sorted(face_map[int(x)] for x in sub.split() if int(x) in face_map)
+                        try:
+                            got_ids = sorted(int(x) for x in new_val.split())
+                        except ValueError:
+                            got_ids = [-1]
+                        if got_ids != want_ids:
+                            self.fail(f'{label}: side list {k}={new_val!r}, expected the new IDs {want_ids} of the listed template faces {sub!r}', 'typed-key-sidelist')
+                            return
+                        self.run.count('typed_sidelists_checked')
+                    elif t.name in ('TARG_NODE_SOURCE', 'TARG_NODE_DEST'):
+                        old_id = int(sub)
+                        try:
+                            new_id = int(new_val)
+                        except ValueError:
+                            new_id = -1
+                        if new_id <= 0 or node_map.setdefault(old_id, new_id) != new_id:
+                            self.fail(f'{label}: node id key {k}: template id {old_id} became {new_val!r}, but {node_map.get(old_id)} elsewhere in the same instance', 'typed-key-nodeid')
+                            return
+                        if len(set(node_map.values())) != len(node_map):
+                            self.fail(f'{label}: two template node ids were mapped to the same new id: {node_map}', 'typed-key-nodeid')
+                            return
+                        self.run.count('typed_nodeids_checked')
+                    elif t.name == 'TARG_DEST_CLASS':
+                        want = sub if sub.casefold() in EntityDef.engine_classes() else fixup_name_model(style, inst_name, sub)
+                        if new_val != want:
+                            self.fail(f'{label}: name-or-class key {k}={new_val!r}, expected {want!r} (template {old!r}, style {style})', 'typed-key-name-or-class')
+                            return
+                        self.run.count('typed_name_or_class_checked')
+                    elif t.name == 'ANGLE_NEG_PITCH' and f == 'pitch':
+                        got_pitch = float(new['angles'].split()[0])
+                        d = (float(new_val) + got_pitch) % 360.0
+                        if min(d, 360.0 - d) > 1e-4:
+                            self.fail(f'{label}: pitch key {new_val!r} is not the negated pitch of the new angles {new["angles"]!r}', 'typed-key-pitch')
+                            return
+                        self.run.count('typed_pitch_checked')
                     elif t.name in ('STRING', 'STR_SOUND', 'STR_SPRITE', 'STR_MODEL', 'STR_MATERIAL', 'INT', 'FLOAT', 'BOOL'):
                         if new_val != sub:
                             self.fail(f'{label}: key {k}={new_val!r}, expected the substituted template value {sub!r} (template {old!r})', 'variable-substitution')
@@ -434,7 +564,7 @@ def main(run, shard=(0, 1)) -> None:
             bounded_progress(run, sub_rng(run.seed, 'bounded', i), i)
     probe.report(run)
     probe.check_reached(run)
-    run.require('collapses', 'collapsed_copies_mutated', 'plane_points_checked', 'texture_projections_checked', 'origins_checked', 'orientations_checked',
+    run.require('collapses', 'collapses_keeping_visgroups', 'collapsed_copies_mutated', 'typed_positions_checked', 'typed_directions_checked', 'typed_axes_checked', 'typed_sidelists_checked', 'typed_nodeids_checked', 'typed_name_or_class_checked', 'typed_pitch_checked', 'plane_points_checked', 'texture_projections_checked', 'origins_checked', 'orientations_checked',
                 'names_checked', 'substitutions_checked', 'template_snapshots_compared', 'collapse_all_runs', 'displacements_checked')
 
 
